@@ -9,6 +9,7 @@ import (
 	"sort"
 	"strings"
 	"sync"
+	"sync/atomic"
 	"testing"
 	"testing/synctest"
 	"time"
@@ -113,6 +114,10 @@ func TestC12(t *testing.T) {
 	r.Finish()
 }
 
+// promptBound separates "answered without waiting for the context" from "waited": datastore operations
+// may take up to a few ms of virtual time each (slow-disk yields), contexts are an hour long.
+const promptBound = 200 * time.Millisecond
+
 type c12Res struct {
 	done         bool
 	hdr          *vh.Header
@@ -150,6 +155,17 @@ func c12Run(c *mon.Case, p c12P) {
 		}
 		_ = e.sync()
 		defer ctl.Install()()
+		if p.Random != 0 && p.Random%3 != 0 {
+			// a slow disk: datastore operations take PRNG virtual time before and after they take effect
+			var n atomic.Uint64
+			e.d.Yield = func(op, key string) {
+				x := (n.Add(1) + p.Random) * 0x9E3779B97F4A7C15
+				if d := []time.Duration{0, 0, 0, time.Microsecond, 50 * time.Microsecond, 500 * time.Microsecond, 3 * time.Millisecond}[(x>>40)%7]; d > 0 {
+					time.Sleep(d)
+				}
+			}
+			defer func() { e.d.Yield = nil }()
+		}
 
 		t0 := time.Now()
 		at := func(us int) {
@@ -254,7 +270,7 @@ func c12Run(c *mon.Case, p c12P) {
 				} else if rs.hdr == nil || rs.hdr.Height() != rd.H || !e.chain.Canonical(rs.hdr) {
 					c.Violation("wrong-header", fmt.Sprintf("reader of %d got %v", rd.H, rs.hdr), nil)
 				}
-				if kind == "stored" && rs.done && rs.elapsed != 0 {
+				if kind == "stored" && rs.done && rs.elapsed > promptBound {
 					c.Violation("stored-height-not-prompt", fmt.Sprintf("GetByHeight(%d) for a stored height took %v virtual", rd.H, rs.elapsed), nil)
 				}
 				classes = append(classes, kind+"/"+contig+"/served")
@@ -272,7 +288,7 @@ func c12Run(c *mon.Case, p c12P) {
 					ctx, cancel := vctx(time.Minute)
 					_, err := e.st.GetByHeight(ctx, rd.H)
 					cancel()
-					if !errors.Is(err, header.ErrNotFound) || time.Since(st) != 0 {
+					if !errors.Is(err, header.ErrNotFound) || time.Since(st) > promptBound {
 						c.Violation("missing-below-height-not-prompt-notfound", fmt.Sprintf("GetByHeight(%d) with Height()=%d: err=%v after %v", rd.H, e.st.Height(), err, time.Since(st)), nil)
 					}
 				}
